@@ -1822,7 +1822,8 @@ class Interp:
             finally:
                 self.pure -= 1
             self.assume(self.truthy(v))
-            self.ctx.assumptions.add('assumed about the external callee %s: %s(result) - %s' % (name, hname, decl.get('reason', 'no reason given')))
+            self.ctx.assumptions.add('assumed about the external callee %s: %s(%s) - %s' % (name, hname, 'result' if n_ <= 1 else 'result, arguments',
+                                                                                           decl.get('reason', 'no reason given')))
         return res
 
     def havoc_ref(self, ref, hint=None):
